@@ -194,8 +194,11 @@ def explore_reader(model, cls, nlines=3, max_paths=4000, prev_marker=False, acti
                     w.peak_line = ln
             return v
         # the reader may be entered anywhere in its enclosing buffer: `skip` lines were consumed before it
-        for _ in range(skip):
-            it.call(it.getattr(w, '__next__'), [], {})
+        try:
+            for _ in range(skip):
+                it.call(it.getattr(w, '__next__'), [], {})
+        except Raised as e:
+            return ('raise', e, nested, w)      # the wrapper does not hand out the lines it was given
         if nx is not None:
             it.func_hooks[nx.qualname] = next_hook
         try:
@@ -225,10 +228,14 @@ def rule_filewrapper(ctx, rep):
     ok0 = it.call(it.getattr(w, 'peek'), [], {}) is lines[0]      # the cursor starts before the first line
     seq = []
     for i in range(2):
-        v = it.call(it.getattr(w, '__next__'), [], {})
-        ln = it.call(it.getattr(w, 'line_number'), [], {})
-        seq.append((v is lines[i], ln == S.add(Aff({}, i))))
-    ok = ok0 and all(a and b for a, b in seq)
+        try:
+            v = it.call(it.getattr(w, '__next__'), [], {})
+            ln = it.call(it.getattr(w, 'line_number'), [], {})
+            seq.append((v is lines[i], ln == S.add(Aff({}, i))))
+        except Raised as r:
+            # the wrapper does not even hand out the lines it was given (it dropped or reordered some)
+            seq.append((False, 'raises %s at line %d of 2' % (r.exc.kind, i)))
+    ok = ok0 and all(a is True and b is True for a, b in seq)
     rep.obligation('R-FILEWRAPPER', ok, {'cursor initially before the first line': ok0,
                                         'after reading line i, line_number()': 'S + i' if ok else repr(seq)})
     if not ok:
